@@ -509,9 +509,22 @@ class ArrayPlugin(object):
             gb = snapshot_fn(b) if isinstance(b, NdArr) else (lambda idx: b)
             f = ops.conj if op == "&" else ops.disj
             return elementwise(arr.shape, "bool", lambda idx: f([ga(idx), gb(idx)]), op)
+        if op in ("+", "-", "*", "%", "/") and arr.dtype in FLOAT_DTYPES:
+            if isinstance(a, NdArr) and isinstance(b, NdArr):
+                require_same_shape(interp, a.shape, b.shape)
+            ga = snapshot_fn(a) if isinstance(a, NdArr) else (lambda idx: a)
+            gb = snapshot_fn(b) if isinstance(b, NdArr) else (lambda idx: b)
+            return elementwise(arr.shape, arr.dtype, lambda idx: arith_elem(interp, op, ga(idx), gb(idx)), op)
         raise OutOfSubset("array arithmetic %s" % op)
 
     def unpack(self, interp, v, n):
+        if isinstance(v, NdArr) and isinstance(v.shape[0], int) and v.shape[0] == n:
+            return [index_view(interp, v, k) for k in range(n)]
+        return None
+
+    def iter_concrete(self, interp, it):
+        if isinstance(it, NdArr) and isinstance(it.shape[0], int) and it.shape[0] <= 16:
+            return [index_view(interp, it, k) for k in range(it.shape[0])]
         return None
 
     # ---- numpy functions ----
@@ -691,7 +704,65 @@ def _np_roll(interp, args, kwargs):
     return NdArr(a.shape, a.dtype, at, a.label + ".roll")
 
 
+def _nested(v):
+    """python nested lists/tuples of numbers -> (shape, flat getter)"""
+    from .values import PyList
+    def items(x):
+        if isinstance(x, PyList):
+            return x.items
+        if isinstance(x, tuple):
+            return list(x)
+        return None
+    shape = []
+    cur = v
+    while items(cur) is not None:
+        shape.append(len(items(cur)))
+        cur = items(cur)[0]
+
+    def get(idx):
+        x = v
+        for i in idx:
+            x = items(x)[i]
+        return x
+    return tuple(shape), get
+
+
+def concrete_array(v, transform=lambda x: x, dtype="f64", label="const"):
+    """A literal (nested list) array: element access by concrete or symbolic index."""
+    shape, get = _nested(v)
+    import itertools
+    table = {idx: transform(get(idx)) for idx in itertools.product(*[range(n) for n in shape])}
+
+    def at(idx):
+        idx = tuple(simp(i) if is_z3(i) else i for i in idx)
+        if all(isinstance(i, int) for i in idx):
+            val = table[idx]
+            return to_fpix(val) if dtype in FLOAT_DTYPES else val
+        res = None
+        for k, val in table.items():
+            val = to_fpix(val) if dtype in FLOAT_DTYPES else val
+            cond = ops.conj([simp(z3num(i) == kk) for i, kk in zip(idx, k)])
+            res = val if res is None else elem_ite(cond, val, res)
+        return res
+
+    return NdArr(shape, dtype, at, label)
+
+
+def _np_radians(interp, args, kwargs):
+    import math
+    interp.note_assumption("np.radians(x) == x * pi / 180 over the reals")
+    k = fractions.Fraction(math.pi) / 180
+    return concrete_array(args[0], lambda d: fractions.Fraction(d) * k, "f64", "radians")
+
+
+def arith_elem(interp, op, a, b):
+    a, b = to_fpix(a), to_fpix(b)
+    val = ops.binop(interp, op, a.val, b.val)
+    return FPix(ops.disj([a.nan, b.nan]), val)
+
+
 NP_FUNCS = {
+    "np.radians": _np_radians,
     "np.roll": _np_roll,
     "np.empty": _np_empty,
     "np.isnan": _np_isnan,
